@@ -16,6 +16,7 @@ import Cnl2aspModel.Compiler.Explain
 import Cnl2aspModel.Compiler.Link
 import Cnl2aspModel.Compiler.Value
 import Cnl2aspModel.Cnl.Codec
+import Cnl2aspModel.Cnl.CodecRef
 
 open Lean Cnl2aspModel
 
@@ -355,6 +356,7 @@ def dispatch (op : String) (j : Json) : Json :=
   | "c06.value" => Ops.c06value j
   | "c01.compile" => Core.Codec.compileOp j
   | "c04.compile" => Core.Codec.compilePrefsOp j
+  | "c01.ref" => Core.Codec.refOp j
   | "c08.origin" => Ops.C08.origin j
   | "c08.link" => Ops.C08.link j
   | _ => Json.mkObj [("err", "bad-op")]
